@@ -48,8 +48,8 @@ from spacepackets.ccsds.spacepacket import (
     SpacePacketHeader, PacketId, PacketType, get_apid_from_raw_space_packet, parse_space_packets,
 )
 from spacepackets.ccsds.time import CdsShortTimestamp
-from spacepackets.ecss.tc import PusTc
-from spacepackets.ecss.tm import PusTm
+from spacepackets.ecss.tc import PusTc, PusTcDataFieldHeader
+from spacepackets.ecss.tm import PusTm, PusTmSecondaryHeader
 from spacepackets.ecss.pus_17_test import Service17Tm
 from spacepackets.ecss.pus_1_verification import Service1Tm, UnpackParams
 from spacepackets.ecss.pus_verificator import PusVerificator
@@ -85,16 +85,35 @@ def _on_alarm(signum, frame):
     raise _Timeout()
 
 
-def _guarded(fn: Callable[[], Any], what: Callable[[], str]):
+def _guarded(fn: Callable[[], Any], what: Callable[[], str], retry: Optional[Callable[[], Any]] = None,
+             limit: int = WATCHDOG_S):
+    """run fn under the watchdog. A first timeout may be the harness itself (a garbage-collection pause
+    with millions of live cases): the offending input alone (`retry`) is then run once more with a
+    generous limit, and only a second timeout is reported."""
     old = signal.signal(signal.SIGALRM, _on_alarm)
-    signal.alarm(WATCHDOG_S)
+    signal.alarm(limit)
     try:
-        return fn()
-    except _Timeout:
-        raise SelfCheckFailure(f"decoder did not return within {WATCHDOG_S} s (loop?): {what()}")
+        try:
+            return fn()
+        except _Timeout:
+            if retry is None:
+                raise SelfCheckFailure(f"decoder did not return within {limit} s (loop?): {what()}")
+            signal.alarm(2 * limit)
+            try:
+                retry()
+            except _Timeout:
+                raise SelfCheckFailure(f"decoder did not return within {2 * limit} s (loop?): {what()}")
+            except BaseException:  # noqa
+                pass
+            signal.alarm(0)
+            raise _Restart()
     finally:
         signal.alarm(0)
         signal.signal(signal.SIGALRM, old)
+
+
+class _Restart(Exception):
+    """the watchdog fired but the input it fired on returns: run the batch again"""
 
 
 # ---------------------------------------------------------------------------------------------
@@ -190,6 +209,8 @@ DECODE: Dict[str, Callable[[Any, Dict[str, Any]], Any]] = {
     "apid": lambda raw, a: get_apid_from_raw_space_packet(raw),
     "parser": _parser,
     "tc": lambda raw, a: PusTc.unpack(raw),
+    "tc_sec": lambda raw, a: PusTcDataFieldHeader.unpack(raw),
+    "tm_sec": lambda raw, a: PusTmSecondaryHeader.unpack(raw, a["ts_len"]),
     "tm": lambda raw, a: PusTm.unpack(raw, a["ts_len"]),
     "s17": lambda raw, a: Service17Tm.unpack(raw, a["ts_len"]),
     "tm_service": lambda raw, a: PusTm.service_from_bytes(raw),
@@ -267,14 +288,42 @@ def _as_buf(raw: bytes, a):
     return raw
 
 
+# decoders that have hung once: their remaining cases are not run again (each would cost the watchdog limit)
+HUNG: Dict[str, str] = {}
+
+
+# phase: the first PLANNED[0] implementation calls are the generated cases (main evaluation); later calls come
+# from the shrinker / failing-input search and are always run for real (with a short limit for a hung decoder),
+# so that a shrunk replay is an input that really hangs
+PLANNED = [0]
+CALLS = [0]
+
+
+def _hung(dec: str):
+    CALLS[0] += 1
+    if dec in HUNG and CALLS[0] <= PLANNED[0]:
+        raise SelfCheckFailure(HUNG[dec] + " [earlier in this run; decoder not run again]")
+
+
+def _limit(dec: str) -> int:
+    return 2 if dec in HUNG else WATCHDOG_S
+
+
 def op_c10_decode(a):
     fn = DECODE.get(a["decoder"])
     if fn is None:
         raise InfraError(f"no decoder {a['decoder']}")
+    _hung(a["decoder"])
     raw = _as_buf(unhx(a["raw"]), a)
     try:
-        _guarded(lambda: fn(raw, a), lambda: f"{a['decoder']} on {a['raw']}")
-    except SelfCheckFailure:
+        try:
+            _guarded(lambda: fn(raw, a), lambda: f"{a['decoder']} on {a['raw']}",
+                     None if a["decoder"] in HUNG else (lambda: fn(raw, a)), _limit(a["decoder"]))
+        except _Restart:
+            _guarded(lambda: fn(raw, a), lambda: f"{a['decoder']} on {a['raw']}")
+    except SelfCheckFailure as e:
+        if "did not return" in str(e):
+            HUNG.setdefault(a["decoder"], str(e))
         raise
     except BaseException as e:  # noqa
         SEEN[(a["decoder"], type(e).__name__)] += 1
@@ -287,6 +336,7 @@ def op_c10_sweep(a):
     fn = DECODE.get(a["decoder"])
     if fn is None:
         raise InfraError(f"no decoder {a['decoder']}")
+    _hung(a["decoder"])
     head, tail, n = unhx(a["head"]), unhx(a["tail"]), a["sweep_len"]
     if not 0 <= n <= 3:
         raise InfraError("c10_sweep: sweep_len must be 0..3")
@@ -323,9 +373,22 @@ def op_c10_sweep(a):
                 cur, ln = ok, 1
 
     total = 256 ** n
-    step = 1 << 14
+    step = 1 << 12
     for lo in range(0, total, step):
-        _guarded(lambda: chunk(lo, min(total, lo + step)), lambda: f"{a['decoder']} on {state['raw'].hex()}")
+        saved = (list(runs), cur, ln, acc, Counter(seen))
+        try:
+            _guarded(lambda: chunk(lo, min(total, lo + step)), lambda: f"{a['decoder']} on {state['raw'].hex()}",
+                     lambda: fn(state["raw"], a))
+        except SelfCheckFailure as e:
+            if "did not return" in str(e):
+                HUNG.setdefault(a["decoder"], str(e))
+            raise
+        except _Restart:
+            runs[:] = saved[0]
+            cur, ln, acc = saved[1], saved[2], saved[3]
+            seen.clear()
+            seen.update(saved[4])
+            _guarded(lambda: chunk(lo, min(total, lo + step)), lambda: f"{a['decoder']} on {state['raw'].hex()}")
     runs.append(ln)
     for k, v in seen.items():
         SEEN[(a["decoder"], k)] += v
@@ -350,6 +413,8 @@ class Unit:
     pos: List[int] = field(default_factory=list)         # header / length / type octets
     refit: Optional[Callable[[bytes], bytes]] = None     # re-fit the checksum after a substitution
     len16: Optional[int] = None                          # offset of a 16-bit length field (swept exhaustively)
+    # variant declaring the total length L (L <= len(raw)) with the checksum fitted at the declared end
+    declfit: Optional[Callable[[bytes, int], Optional[bytes]]] = None
 
 
 def crc16(b: bytes) -> int:
@@ -358,6 +423,29 @@ def crc16(b: bytes) -> int:
 
 def refit_crc(raw: bytes) -> bytes:
     return raw[:-2] + crc16(raw[:-2]).to_bytes(2, "big") if len(raw) >= 2 else raw
+
+
+def fit_sp(raw: bytes, L: int) -> Optional[bytes]:
+    """space packet declaring a total length of L octets, CRC-16 fitted at octets L-2, L-1"""
+    if not 8 <= L <= len(raw):
+        return None
+    b = bytearray(raw)
+    b[4:6] = (L - 7).to_bytes(2, "big")
+    b[L - 2:L] = crc16(bytes(b[:L - 2])).to_bytes(2, "big")
+    return bytes(b)
+
+
+def fit_pdu_at(hl: int) -> Callable[[bytes, int], Optional[bytes]]:
+    def fit(raw: bytes, L: int) -> Optional[bytes]:
+        """PDU declaring a total length of L octets (data field L - hl), CRC fitted at the declared end when flagged"""
+        if not hl <= L <= len(raw):
+            return None
+        b = bytearray(raw)
+        b[1:3] = (L - hl).to_bytes(2, "big")
+        if b[0] & 2 and L >= 2:
+            b[L - 2:L] = crc16(bytes(b[:L - 2])).to_bytes(2, "big")
+        return bytes(b)
+    return fit
 
 
 def enc_sph(version, ptype, shf, apid, flags, count, dlen) -> bytes:
@@ -377,7 +465,7 @@ def fam_tc(rng) -> Unit:
     body = (enc_sph(0, 1, 1, apid, 3, rng.randint(0, 16383), 5 + len(data) + 2 - 1)
             + bytes([0x20 | rng.randint(0, 15), rng.randint(0, 255), rng.randint(0, 255)]) + rbytes(rng, 2) + data)
     raw = body + crc16(body).to_bytes(2, "big")
-    return Unit(raw, {"ids": [[1, 1, apid]]}, list(range(0, 11)), refit_crc, 4)
+    return Unit(raw, {"ids": [[1, 1, apid]]}, list(range(0, 11)), refit_crc, 4, fit_sp)
 
 
 def _tm_raw(rng, service, sub, ts: bytes, src: bytes, version=None, apid=None) -> Tuple[bytes, int]:
@@ -391,13 +479,22 @@ def _tm_raw(rng, service, sub, ts: bytes, src: bytes, version=None, apid=None) -
 def fam_tm(rng) -> Unit:
     ts = rbytes(rng, rng.choice([0, 1, 2, 4, 7, 7, 7, 8, 12, 16]))
     raw, apid = _tm_raw(rng, rng.randint(0, 255), rng.randint(0, 255), ts, rbytes(rng, rng.choice(DATA_LENS)))
-    return Unit(raw, {"ts_len": len(ts), "ids": [[0, 1, apid]]}, list(range(0, 13)), refit_crc, 4)
+    return Unit(raw, {"ts_len": len(ts), "ids": [[0, 1, apid]]}, list(range(0, 13)), refit_crc, 4, fit_sp)
+
+
+def fam_tc_sec(rng) -> Unit:
+    return Unit(bytes([0x20 | rng.randint(0, 15)]) + rbytes(rng, 4), {}, [0])
+
+
+def fam_tm_sec(rng) -> Unit:
+    ts = rbytes(rng, rng.choice([0, 1, 7, 7, 12]))
+    return Unit(bytes([0x20 | rng.randint(0, 15)]) + rbytes(rng, 6) + ts, {"ts_len": len(ts)}, [0])
 
 
 def fam_s17(rng) -> Unit:
     ts = rbytes(rng, rng.choice([0, 7, 7, 12]))
     raw, apid = _tm_raw(rng, 17, rng.choice([1, 2, 128, 255]), ts, rbytes(rng, rng.choice(DATA_LENS)))
-    return Unit(raw, {"ts_len": len(ts), "ids": [[0, 1, apid]]}, list(range(0, 13)), refit_crc, 4)
+    return Unit(raw, {"ts_len": len(ts), "ids": [[0, 1, apid]]}, list(range(0, 13)), refit_crc, 4, fit_sp)
 
 
 def fam_s1(rng) -> Unit:
@@ -413,7 +510,8 @@ def fam_s1(rng) -> Unit:
     n = len(raw)
     # header, PUS secondary header, request id, the field octets behind it
     pos = list(range(0, 13)) + [p for p in range(13 + len(ts), min(n - 2, 13 + len(ts) + 4 + sw + ew + 1))]
-    return Unit(raw, {"ts_len": len(ts), "step_bytes": sw, "err_bytes": ew, "ids": [[0, 1, apid]]}, pos, refit_crc, 4)
+    return Unit(raw, {"ts_len": len(ts), "step_bytes": sw, "err_bytes": ew, "ids": [[0, 1, apid]]}, pos, refit_crc, 4,
+                fit_sp)
 
 
 def fam_reqid(rng) -> Unit:
@@ -446,8 +544,8 @@ def fam_pdu(rng) -> Unit:
     p = c05.spec_pack(h) + body
     hl = len(p) - len(body)
     if crc:
-        return Unit(p + crc16(p).to_bytes(2, "big"), {"_hl": hl}, [0, 1, 2, 3, hl], refit_crc, 1)
-    return Unit(p, {"_hl": hl}, [0, 1, 2, 3, hl], None, 1)
+        return Unit(p + crc16(p).to_bytes(2, "big"), {"_hl": hl}, [0, 1, 2, 3, hl], refit_crc, 1, fit_pdu_at(hl))
+    return Unit(p, {"_hl": hl}, [0, 1, 2, 3, hl], None, 1, fit_pdu_at(hl))
 
 
 def fam_lv(rng) -> Unit:
@@ -531,7 +629,7 @@ def fam_pdu_kind(kind) -> Callable[[random.Random], Unit]:
         raw = kind.spec(kind.params(rng, conf, _PDU_COUNTER[0]))
         hl = 4 + 2 * conf["src_w"] + conf["seq_w"]
         pos = [0, 1, 2, 3] + [p for p in range(hl, min(len(raw), hl + 14))]
-        return Unit(raw, {"_hl": hl, "_fd": kind.code is None}, pos, refit_pdu, 1)
+        return Unit(raw, {"_hl": hl, "_fd": kind.code is None}, pos, refit_pdu, 1, fit_pdu_at(hl))
     return gen
 
 
@@ -559,7 +657,7 @@ def fam_reserved(rng) -> Unit:
 
 
 FAMILIES: Dict[str, Callable[[random.Random], Unit]] = {
-    "sph": fam_sph, "tc": fam_tc, "tm": fam_tm, "s17": fam_s17, "s1": fam_s1, "reqid": fam_reqid, "pfe": fam_pfe,
+    "sph": fam_sph, "tc": fam_tc, "tc_sec": fam_tc_sec, "tm_sec": fam_tm_sec, "tm": fam_tm, "s17": fam_s17, "s1": fam_s1, "reqid": fam_reqid, "pfe": fam_pfe,
     "cds": fam_cds, "pdu_hdr": fam_pdu_hdr, "pdu": fam_pdu, "lv": fam_lv, "tlv": fam_tlv, "bf": fam_bf,
     "uslp_hdr": fam_uslp_hdr, "uslp_thdr": fam_uslp_thdr, "tfdf": fam_tfdf, "frame": fam_frame,
 }
@@ -623,16 +721,17 @@ KINDS: Dict[str, Kind] = {
     "sph": Kind("sph"), "apid": Kind("sph"),
     "parser": Kind("tc", p_parser, keys=("ids",)),
     "tc": Kind("tc"),
+    "tc_sec": Kind("tc_sec", p_min(5)), "tm_sec": Kind("tm_sec", p_min(7), keys=("ts_len",)),
     "tm": Kind("tm", keys=("ts_len",)), "s17": Kind("s17", keys=("ts_len",)),
     "tm_service": Kind("tm", p_min(8), light=True),
     "s1": Kind("s1", keys=("ts_len", "step_bytes", "err_bytes")),
     "s1_from_tm": Kind("s1", keys=("ts_len", "step_bytes", "err_bytes"), light=True),
     "s1_verif": Kind("s1", keys=("ts_len", "step_bytes", "err_bytes"), light=True),
-    "reqid": Kind("reqid", cheap=True), "pfe": Kind("pfe", cheap=True, short=True, keys=("pfc",)), "cds": Kind("cds"),
+    "reqid": Kind("reqid"), "pfe": Kind("pfe", cheap=True, short=True, keys=("pfc",)), "cds": Kind("cds"),
     "pdu_hdr": Kind("pdu_hdr"), "hdr_len": Kind("pdu_hdr", p_min(4)),
     "pdu_front": Kind("pdu"), "dir_front": Kind("pdu"),
     "lv": Kind("lv", cheap=True, short=True), "tlv": Kind("tlv", cheap=True, short=True),
-    "bf_from_bytes": Kind("bf", p_bf_from_bytes, cheap=True, short=True),
+    "bf_from_bytes": Kind("bf", p_bf_from_bytes, short=True),
     "bf_gen": Kind("bf", cheap=True, short=True, keys=("n",)), "bf_un": Kind("bf", short=True, keys=("n",)),
     "uslp_hdr": Kind("uslp_hdr"), "uslp_thdr": Kind("uslp_thdr"),
     "uslp_hdr_type": Kind("uslp_hdr", p_min(4)),
@@ -652,11 +751,11 @@ PDU_DECODERS = {"ack": "ack", "prompt": "prompt", "keep_alive": "keep_alive", "n
 for _d, _f in PDU_DECODERS.items():
     KINDS[_d] = Kind("pdu:" + _f)
 for _k in _TLV_CLS:
-    KINDS[_k] = Kind(_k, cheap=_k in ("fault_handler", "fs_request"), short=True)
+    KINDS[_k] = Kind(_k, short=True)
     KINDS[_k + ".from_tlv"] = Kind(_k, light=True)
     KINDS[_k + ".holder"] = Kind(_k, light=True)
 # a parser run on TM units uses the TM packet id
-MODEL_ORDER = ["sph", "apid", "parser", "tc", "tm", "s17", "tm_service", "s1", "s1_from_tm", "s1_verif", "reqid", "pfe",
+MODEL_ORDER = ["sph", "apid", "parser", "tc", "tc_sec", "tm_sec", "tm", "s17", "tm_service", "s1", "s1_from_tm", "s1_verif", "reqid", "pfe",
                "cds", "pdu_hdr", "hdr_len", "pdu_front", "dir_front", "lv", "tlv"] + list(_TLV_CLS) + \
               [k + ".from_tlv" for k in _TLV_CLS] + [k + ".holder" for k in _TLV_CLS] + \
               ["bf_from_bytes", "bf_gen", "bf_un", "uslp_hdr", "uslp_thdr", "uslp_hdr_type", "tfdf", "frame"] + \
@@ -780,7 +879,17 @@ class C10(Prop):
 
     # -----------------------------------------------------------------------------------------
     def cases(self, rng: random.Random, tier: str) -> Iterator[Case]:
+        n = 0
+        for c in self._cases(rng, tier):
+            n += 1
+            yield c
+        PLANNED[0] = CALLS[0] + n
+
+    def _cases(self, rng: random.Random, tier: str) -> Iterator[Case]:
         thorough = tier == "thorough"
+        if thorough:
+            import gc
+            gc.disable()     # millions of live cases: collector pauses would trip the watchdog; nothing here is cyclic
         n_units = 120 if thorough else 50
         n_random = 1_000_000 if thorough else 20_000
         decs = list(MODEL_ORDER)
@@ -799,7 +908,7 @@ class C10(Prop):
             # ---- exhaustive: all strings of length <= 2 (<= 3) ------------------------------------
             top = 3 if (thorough and kd.cheap) else (2 if (thorough or kd.short) else 1)
             for n in range(top + 1):
-                for rep in range(1 if n < 2 else (2 if kd.keys else 1)):
+                for rep in range(1 if n != 2 else (2 if kd.keys else 1)):
                     cfg = cfg_for(dec, rng, units[0].cfg if (n >= 2 and rep == 0) else None)
                     yield Case({"op": "c10_sweep", "decoder": dec, "head": "", "tail": "", "sweep_len": n, **cfg}, "any",
                                tag=f"{dec}:all-len-{n}")
@@ -844,6 +953,15 @@ class C10(Prop):
                         yield mk(dec, m, cfg, "any", "substitution")
                         if u.refit is not None:
                             yield mk(dec, u.refit(m), cfg, "any", "substitution+crc")
+            # ---- every small declared length with the checksum fitted at the declared end ----------
+            for u in units[: (n_units if thorough else 25)]:
+                if u.declfit is None:
+                    continue
+                cfg = unit_cfg(dec, u)
+                for L in range(0, min(len(u.raw), 40) + 1):
+                    m = u.declfit(u.raw, L)
+                    if m is not None and m != u.raw:
+                        yield mk(dec, m, cfg, "any", "declared-len+crc")
             # ---- exhaustive 16-bit length fields inside valid units ---------------------------------
             if units[0].len16 is not None or any(u.len16 is not None for u in units):
                 cands = [u for u in units if u.len16 is not None]
